@@ -61,7 +61,7 @@ SUITES = {
 # scripted regression histories: (file under /verif/scripts/defects, elem)
 DEFECT_SCRIPTS = [
     ("d1.ndjson", "plain"), ("d2.ndjson", "zst"), ("d2b.ndjson", "zst"), ("d3.ndjson", "plain"),
-    ("d5.ndjson", "heap"), ("d4a.ndjson", "plain"), ("d4b.ndjson", "plain"), ("d6.ndjson", "heap"), ("d7.ndjson", "heap"), ("d8.ndjson", "plain"),
+    ("d5.ndjson", "heap"), ("d4a.ndjson", "plain"), ("d4b.ndjson", "plain"), ("d6.ndjson", "heap"), ("d7.ndjson", "heap"), ("d8.ndjson", "plain"), ("d9.ndjson", "heap"),
 ]
 
 # ---------------------------------------------------------------------------------------------
@@ -77,6 +77,7 @@ MC_DEPS = {
     "Iter": ["Hashbrown.tla", "Griddle.tla", "GriddleCount.tla", "MCGriddle.tla", "MCIter.tla"],
     "Par": ["MCPar.tla"],
     "Cursor": ["MCCursor.tla"],
+    "CloneFrom": ["MCCloneFrom.tla"],
     "CursorZst": ["MCCursor.tla"],
     "Overflow": ["Hashbrown.tla", "GriddleCount.tla", "MCCount.tla"],
     "OverflowDbg": ["Hashbrown.tla", "GriddleCount.tla", "MCCount.tla"],
@@ -108,6 +109,11 @@ MC = {
     "CursorZst": {
         "quick": ("MCCursor", "MCCursorZst", 4, 3600),
         "thorough": ("MCCursor", "MCCursorZst", 4, 3600),
+    },
+    # clone_from as a process that may be left at any step, with the hasher an element was placed with (D9)
+    "CloneFrom": {
+        "quick": ("MCCloneFrom", "MCCloneFrom", 4, 3600),
+        "thorough": ("MCCloneFrom", "MCCloneFrom", 4, 3600),
     },
     "Fault": {
         "quick": ("MCGriddle", "MCFault", 6, 3600),
@@ -152,7 +158,7 @@ PROPS = {
     # after an injected panic the semantic/safety monitors are part of "the map stays memory-safe and
     # self-consistent, later operations behave normally": their failures after a fault count for C07
     # (unless the fault-free control segments fail too: then the panic is not to blame)
-    "C07": dict(suites=["fault_heap", "fault_heap_rel", "fault_plain", "fault_two", "fault_set", "fault_zst", "defects"], mc=["Fault"],
+    "C07": dict(suites=["fault_heap", "fault_heap_rel", "fault_plain", "fault_two", "fault_set", "fault_zst", "defects"], mc=["Fault", "CloneFrom"],
                 after_fault=True),
     # (entry suites: iteration right after entry / raw-entry calls on old-table elements next to the move cursor)
     "C08": dict(suites=["core_heap", "rel_heap", "core_plain", "set_heap", "core_zst", "entry_heap", "entry_plain"], mc=["Small"]),
@@ -160,7 +166,7 @@ PROPS = {
     "C10": dict(suites=["sim_plain", "sim_heap", "limits_dbg", "limits_rel", "core_plain", "rel_plain", "set_heap", "defects", "repo_tests"], mc=["CountR8", "Overflow", "OverflowDbg"]),
     # a failed semantic monitor on a map that is the product of clone / clone_from in that run (a lookup
     # missing in the clone, wrong contents after a later call, ...) is C11's
-    "C11": dict(suites=["two_heap", "two_plain_rel", "set_two", "defects", "repo_tests"], mc=["CountR8", "Small"], on_clones=True),
+    "C11": dict(suites=["two_heap", "two_plain_rel", "set_two", "defects", "repo_tests"], mc=["CountR8", "Small", "CloneFrom"], on_clones=True),
     "C12": dict(suites=["entry_heap", "entry_plain", "core_heap", "rel_heap", "core_plain", "core_zst", "defects"], mc=["Small"]),
     "C13": dict(suites=["set_heap", "set_two", "set_zst"], mc=["Small"]),
     "C14": dict(suites=["meta_heap", "meta_plain", "meta_set", "meta_zst"], mc=["Small"],
